@@ -26,8 +26,8 @@ CONSTANTS
   GradsIn,     \* sequence of integer upstream gradients (same length as the inputs)
   MaxHist, Record, Acts
 
-VARIABLES training, rm, rv, nbt, out, mask, hist
-vars == <<training, rm, rv, nbt, out, mask, hist>>
+VARIABLES training, rm, rv, nbt, out, mask, hist, fwds, bwout
+vars == <<training, rm, rv, nbt, out, mask, hist, fwds, bwout>>
 
 RECURSIVE Prod(_)
 Prod(s) == IF s = <<>> THEN 1 ELSE s[1] * Prod(Tail(s))
@@ -46,7 +46,7 @@ UnbiasedOf(b, c) == QMul(VarOf(b, c), <<CountOf(b, c), CountOf(b, c) - 1>>)
 None == <<>>
 Rec(r) == IF Record THEN Append(hist, r) ELSE hist
 CanAct == Record => Len(hist) < MaxHist
-Obs == [training |-> training, rm |-> rm, rv |-> rv, nbt |-> nbt, out |-> out]
+Obs == [training |-> training, rm |-> rm, rv |-> rv, nbt |-> nbt, out |-> out, bwout |-> bwout]
 
 -----------------------------------------------------------------------------
 Init ==
@@ -54,20 +54,21 @@ Init ==
   /\ rm = IF Layer = "bn" /\ Track THEN <<[c \in 1..NC |-> Q0]>> ELSE None
   /\ rv = IF Layer = "bn" /\ Track THEN <<[c \in 1..NC |-> Q1]>> ELSE None
   /\ nbt = 0 /\ out = None /\ mask = None /\ hist = <<>>
+  /\ fwds = <<>> /\ bwout = None
 
 SetMode(tr) ==
   /\ "mode" \in Acts /\ CanAct
   /\ training' = tr
-  /\ out' = None
-  /\ UNCHANGED <<rm, rv, nbt, mask>>
+  /\ out' = None /\ bwout' = None
+  /\ UNCHANGED <<rm, rv, nbt, mask, fwds>>
   /\ hist' = Rec([a |-> IF tr THEN "train" ELSE "eval"])
 
 \* ---- batch norm ------------------------------------------------------------------
 SetStats(st) ==
   /\ Layer = "bn" /\ "stats" \in Acts /\ CanAct /\ Track /\ st \in StatsSet
   /\ rm' = <<st[1]>> /\ rv' = <<st[2]>>
-  /\ out' = None
-  /\ UNCHANGED <<training, nbt, mask>>
+  /\ out' = None /\ bwout' = None
+  /\ UNCHANGED <<training, nbt, mask, fwds>>
   /\ hist' = Rec([a |-> "setstats", rm |-> st[1], rv |-> st[2]])
 
 BNForward(bi) ==
@@ -88,8 +89,20 @@ BNForward(bi) ==
                 /\ rm' = <<[c \in 1..NC |-> QAdd(QMul(QSub(Q1, f), rm[1][c]), QMul(f, MeanOf(b, c)))]>>
                 /\ rv' = <<[c \in 1..NC |-> QAdd(QMul(QSub(Q1, f), rv[1][c]), QMul(f, UnbiasedOf(b, c)))]>>
            ELSE UNCHANGED <<nbt, rm, rv>>
+        \* the output keeps, for its backward pass, the statistics THIS forward normalised with
+        /\ fwds' = Append(fwds, [mode |-> IF useBatch THEN "batch" ELSE "stats", el |-> out'[1], shape |-> b.shape])
+  /\ bwout' = None
   /\ UNCHANGED <<training, mask>>
   /\ hist' = Rec([a |-> "fwd", b |-> bi])
+
+\* backward through the k-th forward pass of this history (possibly after later forwards / mode switches):
+\* its input gradient is the VJP of THAT forward's function; running statistics never move in a backward pass
+BNBackward(k) ==
+  /\ Layer = "bn" /\ "bnbwd" \in Acts /\ CanAct /\ k \in 1..Len(fwds)
+  /\ bwout' = <<[k |-> k] @@ fwds[k]>>
+  /\ out' = None
+  /\ UNCHANGED <<training, rm, rv, nbt, mask, fwds>>
+  /\ hist' = Rec([a |-> "bwd", k |-> k])
 
 \* ---- dropout -----------------------------------------------------------------------
 Scale == IF PDrop[1] = PDrop[2] THEN Q1 ELSE QInv(QSub(Q1, PDrop))       \* 1 / (1 - p); p = 1: everything is dropped
@@ -106,7 +119,7 @@ DropForward(xi, m) ==
      ELSE /\ m = [i \in 1..Len(Inputs[xi]) |-> 1]          \* eval: the identity
           /\ mask' = <<[i \in 1..Len(m) |-> Q1]>>
           /\ out' = <<[i \in 1..Len(Inputs[xi]) |-> QI(Inputs[xi][i])]>>
-  /\ UNCHANGED <<training, rm, rv, nbt>>
+  /\ UNCHANGED <<training, rm, rv, nbt, fwds, bwout>>
   /\ hist' = Rec([a |-> "fwd", x |-> xi, m |-> m])      \* the mask chosen is part of the behaviour (the driver matches it)
 
 \* backward of the last forward goes through the same mask
@@ -114,13 +127,14 @@ DropBackward(gi) ==
   /\ Layer = "drop" /\ "bwd" \in Acts /\ CanAct /\ mask # None /\ gi \in 1..Len(GradsIn)
   /\ Len(GradsIn[gi]) = Len(mask[1])
   /\ out' = <<[i \in 1..Len(GradsIn[gi]) |-> QMul(QI(GradsIn[gi][i]), mask[1][i])]>>   \* whatever the mode is now
-  /\ UNCHANGED <<training, rm, rv, nbt, mask>>
+  /\ UNCHANGED <<training, rm, rv, nbt, mask, fwds, bwout>>
   /\ hist' = Rec([a |-> "bwd", g |-> gi])
 
 Next ==
   \/ \E tr \in BOOLEAN : SetMode(tr)
   \/ \E st \in StatsSet : SetStats(st)
   \/ \E bi \in 1..Len(Batches) : BNForward(bi)
+  \/ \E k \in 1..Len(fwds) : BNBackward(k)
   \/ \E xi \in 1..Len(Inputs) : \E m \in Masks(Len(Inputs[xi])) : DropForward(xi, m)
   \/ \E gi \in 1..Len(GradsIn) : DropBackward(gi)
 
